@@ -23,6 +23,9 @@ const (
 
 // Held is one lock held.
 type Held struct {
+	// AtExit: a deferred unlock of this lock was registered while it was definitely held: the lock is released when
+	// the function returns on every path through here, also when the defer sits in a branch
+	AtExit bool
 	Path ir.Path
 	Mode Mode
 	// Tainted: inherited from a callee that is itself reported for this lock
@@ -378,6 +381,17 @@ func (a *Analysis) analyzeFunc(fn *ssa.Function) *FuncInfo {
 				case *ssa.Defer:
 					if k, path, ok := LockOp(x.Common()); ok {
 						fi.Ops = append(fi.Ops, Op{Instr: x, Kind: k, Path: path, Deferred: true})
+						if k == OpUnlock || k == OpRUnlock {
+							key := Key(path)
+							if h, held := st.Must[key]; held {
+								h.AtExit = true
+								st.Must[key] = h
+								if m, ok := st.May[key]; ok {
+									m.AtExit = true
+									st.May[key] = m
+								}
+							}
+						}
 					}
 				case *ssa.RunDefers:
 					for i := len(defers) - 1; i >= 0; i-- {
@@ -385,6 +399,20 @@ func (a *Analysis) analyzeFunc(fn *ssa.Function) *FuncInfo {
 						if d.Block() == b && ir.InstrIndex(d) < ir.InstrIndex(x) || d.Block() != b && d.Block().Dominates(b) {
 							a.applyCall(&st, d, true, fi)
 						} else if ir.CanReach(d, x) {
+							// a defer in a branch: on the paths through it the lock was marked; on the others there
+							// is nothing to release
+							if k, path, ok := LockOp(d.Common()); ok && (k == OpUnlock || k == OpRUnlock) {
+								key := Key(path)
+								if m, held := st.May[key]; held && m.AtExit {
+									fi.Released[key] = true
+									delete(st.May, key)
+									delete(st.Must, key)
+									continue
+								}
+								if _, held := st.May[key]; !held {
+									continue
+								}
+							}
 							a.applyCall(&st, d, false, fi)
 						}
 					}
@@ -412,6 +440,10 @@ func (a *Analysis) analyzeFunc(fn *ssa.Function) *FuncInfo {
 						changed = true
 					} else if old.Tainted && !v.Tainted {
 						t.May[k] = v
+						changed = true
+					} else if old.AtExit && !v.AtExit {
+						old.AtExit = false
+						t.May[k] = old
 						changed = true
 					}
 				}
